@@ -44,6 +44,9 @@ type Conn struct {
 	in          chan *Line
 	out         chan string
 	connected   bool
+	// true while Close is waiting for the goroutines of the connection
+	// it is tearing down; Connect is refused until that has finished.
+	closing bool
 
 	// Capabilities supported by the server
 	supportedCaps *capSet
@@ -393,6 +396,9 @@ func (conn *Conn) internalConnect(ctx context.Context) error {
 	if conn.connected {
 		return fmt.Errorf("irc.Connect(): Cannot connect to %s, already connected.", conn.cfg.Server)
 	}
+	if conn.closing {
+		return fmt.Errorf("irc.Connect(): Cannot connect to %s, still disconnecting.", conn.cfg.Server)
+	}
 	// Only reset per-connection state once we know we're really connecting:
 	// doing this first pulled the socket and queues out from under the
 	// goroutines of a live connection when Connect was called twice.
@@ -663,8 +669,16 @@ func (conn *Conn) closeSock(sock net.Conn) error {
 	// gone.
 	stop := make(chan struct{})
 	go drainUntil(conn.in, conn.out, stop)
+	// Don't hold conn.mu while waiting: the event loop waits for running
+	// handlers, and a handler that calls Connected() (or anything else that
+	// takes conn.mu) would wait for us in turn. conn.closing keeps Connect
+	// out until the old goroutines have gone.
+	conn.closing = true
+	conn.mu.Unlock()
 	conn.wg.Wait()
 	close(stop)
+	conn.mu.Lock()
+	conn.closing = false
 	conn.mu.Unlock()
 	// Dispatch after closing connection but before reinit
 	// so event handlers can still access state information.
